@@ -532,6 +532,24 @@ def run_inv(scratch, inv, extra_env=None):
     return res
 
 
+def legal_perturbation(seed):
+    """fault rules that are legal behaviour of the OS and must never change any outcome: partial reads and
+    writes on every file and stream, and interrupted calls.  Drawn from `seed` (0 = none)."""
+    k = seed % 5
+    if k == 0 or seed == 0:
+        return []
+    sizes = [["7,1,30,4096"], ["1"], ["64,3"], ["4095,2"]][(seed // 5) % 4]
+    plan = []
+    if k in (1, 3):
+        plan.append("* read 0 * short " + sizes[0])
+    if k in (2, 3):
+        plan.append("* write 0 * short " + sizes[0])
+    if k == 4:
+        plan.append("* read %d * eintr %d" % (1 + (seed // 7) % 3, 1 + (seed // 11) % 2))
+        plan.append("* write %d * eintr 1" % (1 + (seed // 13) % 4))
+    return plan
+
+
 def text_of(b):
     return b.decode("utf-8", errors="replace")
 
